@@ -38,6 +38,11 @@ func NewHTTPDeliverer(client *http.Client, policy EgressPolicy) *HTTPDeliverer {
 		Resolver: nil,
 		Now:      time.Now,
 	}
+	base := client.Transport
+	if base == nil {
+		base = http.DefaultTransport
+	}
+	client.Transport = noReplayTransport{base: base}
 	if policy.Redirects {
 		client.CheckRedirect = d.checkRedirect
 	} else {
@@ -46,6 +51,31 @@ func NewHTTPDeliverer(client *http.Client, policy EgressPolicy) *HTTPDeliverer {
 		}
 	}
 	return d
+}
+
+// noReplayTransport hides GetBody from the underlying transport. net/http
+// re-sends a request on its own when a reused connection fails before any
+// response byte and the request is "replayable" (rewindable body plus an
+// Idempotency-Key or X-Idempotency-Key header, which stored ingress headers
+// may carry). Such a re-send has no attempt record and no backoff; retries are
+// the dispatcher's business. The client keeps GetBody for redirects.
+type noReplayTransport struct {
+	base http.RoundTripper
+}
+
+func (t noReplayTransport) RoundTrip(req *http.Request) (*http.Response, error) {
+	if req.GetBody != nil {
+		r2 := *req
+		r2.GetBody = nil
+		req = &r2
+	}
+	return t.base.RoundTrip(req)
+}
+
+func (t noReplayTransport) CloseIdleConnections() {
+	if c, ok := t.base.(interface{ CloseIdleConnections() }); ok {
+		c.CloseIdleConnections()
+	}
 }
 
 func (d *HTTPDeliverer) Deliver(ctx context.Context, delivery Delivery) Result {
